@@ -31,7 +31,8 @@ def job_name(params):
 
 
 class VProcess:
-    def __init__(self, vpid, script: Path, owner_pid):
+    def __init__(self, vpid, script: Path, owner_pid, name="?"):
+        self.name = name
         self.vpid, self.script = vpid, Path(script)
         self.code = None
         self.exited = False
@@ -77,6 +78,8 @@ class VProcess:
                 del V.W.iplocks[path]
         self.code = -9
         self.exited = True
+        self.body_running = False
+        V.W.events.append(("exit", self.name, self.script.parent.name[:8], self.vpid, -9))
 
     # -- the process itself
     def body(self):
@@ -175,6 +178,7 @@ class VProcessBuilder:
             name = job_name(json.loads((p.script.parent / "params.json").read_text()))
         except Exception:  # noqa
             name = "?"
+        p.name = name
         V.W.events.append(("launch", name, jobid, owner.pid, vpid))
         V.HUB.spawn(f"job:{name}:{vpid}", p.body, proc=sp, kind="job")
         if V.W.fine is True:
